@@ -226,7 +226,7 @@ def _branch_and_price(
     frac_idx, frac_val = _most_fractional(x_vals, eps)
     if frac_idx is None:
         solution = _build_solution(x_vals, columns, eps)
-        return Result(solution, lp_obj, 0, total_cg_iters, Status.OPTIMAL)
+        return Result(solution, float(sum(solution.values())), 0, total_cg_iters, Status.OPTIMAL)
 
     # Initialize B&B
     best_solution: dict[tuple[int, ...], int] | None = None
@@ -272,9 +272,10 @@ def _branch_and_price(
 
         if frac_idx is None:
             # Integer feasible - update incumbent
-            obj = sum(x for x in x_vals if x > eps)
+            candidate = _build_solution(x_vals, columns, eps)
+            obj = float(sum(candidate.values()))  # rolls of the plan itself, not the float LP value
             if obj < best_obj - eps:
-                best_solution = _build_solution(x_vals, columns, eps)
+                best_solution = candidate
                 best_obj = obj
 
                 # Check gap
